@@ -18,7 +18,7 @@
 //! Everything else is copied verbatim.
 
 use crate::printer::{norm, norm_str, OutLine, Printer, Splices};
-use crate::rewrite::{mark_fn_body, AtAnchor, Closures, ForEach, Maps, Marker, Rw};
+use crate::rewrite::{mark_fn_body, AtAnchor, Closures, ForEach, Maps, Marker, OptDesugar, Rw};
 use quote::ToTokens;
 use serde_json::{json, Value as J};
 use std::collections::{HashMap, HashSet};
@@ -379,6 +379,8 @@ pub fn run(repo: &str, unit_path: &str, canary: bool) -> std::result::Result<Run
                 let mut ats: Vec<(AtAnchor, String)> = vec![];
                 let mut local = maps.clone();
                 let mut closure_repl: HashMap<usize, Expr> = HashMap::new();
+                let mut optdesugar: HashSet<String> = HashSet::new();
+                let mut loop_wrap: HashMap<usize, String> = HashMap::new();
                 enum Sec { Contract, Loop(usize), At(usize) }
                 let mut sec = Sec::Contract;
                 i += 1;
@@ -394,6 +396,9 @@ pub fn run(repo: &str, unit_path: &str, canary: bool) -> std::result::Result<Run
                                 let n: usize = w.get(1).and_then(|x| x.parse().ok()).ok_or(format!("bad //@loop: {dd}"))?;
                                 let oo = opts(&w[2..]);
                                 loops.insert(n, (String::new(), oo.get("iter").cloned()));
+                                if let Some(wf) = oo.get("wrap") {
+                                    loop_wrap.insert(n, wf.clone());
+                                }
                                 sec = Sec::Loop(n);
                             }
                             Some("at") => {
@@ -414,6 +419,11 @@ pub fn run(repo: &str, unit_path: &str, canary: bool) -> std::result::Result<Run
                                 let (a, b) = split_map(dd.trim_start()["typemap".len()..].trim()).ok_or(format!("bad typemap: {dd}"))?;
                                 let a = norm_str(&a).ok_or("bad typemap key")?;
                                 local.typemap.insert(0, (a, b));
+                            }
+                            Some("optdesugar") => {
+                                for x in &w[1..] {
+                                    optdesugar.insert(x.to_string());
+                                }
                             }
                             Some("closuremap") => {
                                 let (a, b) = split_map(dd.trim_start()["closuremap".len()..].trim()).ok_or(format!("bad closuremap: {dd}"))?;
@@ -447,6 +457,11 @@ pub fn run(repo: &str, unit_path: &str, canary: bool) -> std::result::Result<Run
                 let src_line = sig.ident.span().start().line;
                 let orig_text = norm(&body.to_token_stream());
                 let orig_sig = norm(&sig.to_token_stream());
+                if !optdesugar.is_empty() {
+                    let mut od = OptDesugar { methods: optdesugar.clone(), log: vec![] };
+                    od.visit_block_mut(&mut body);
+                    rewrites.extend(od.log.drain(..).map(|mut l| { l["in"] = json!(target); l["file"] = json!(file); l }));
+                }
                 {
                     let mut fe = ForEach { log: vec![] };
                     fe.visit_block_mut(&mut body);
@@ -477,7 +492,11 @@ pub fn run(repo: &str, unit_path: &str, canary: bool) -> std::result::Result<Run
                 }
 
                 // pass 1: markers
+                for (n, wf) in &loop_wrap {
+                    rewrites.push(json!({"rule": "R6", "in": target, "file": file, "src_line": 0, "before": format!("iterable of loop {n}"), "after": format!("{wf}(<iterable>)")}));
+                }
                 let mut mk = Marker {
+                    wrap_iter: loop_wrap.clone(),
                     next_loop: 0,
                     named_iter: loops.iter().filter(|(_, v)| v.1.is_some()).map(|(k, _)| *k).collect(),
                     ats: ats.iter().enumerate().map(|(k, (a, _))| (a.clone(), k)).collect(),
